@@ -67,7 +67,7 @@ ClassOk(r) ==
     CASE r.form = "mapping" -> r.cls = "InversionInterferometerMapping"
       [] r.form = "w_tilde" -> r.cls = "InversionInterferometerWTilde"
       [] OTHER -> /\ r.cls \in {"InversionInterferometerMapping", "InversionInterferometerWTilde"}
-                  /\ ((~ r.usew \/ \E o \in DOMAIN r.objs : ~ r.objs[o].mapper) => r.cls = "InversionInterferometerMapping")
+                  /\ (~ r.usew => r.cls = "InversionInterferometerMapping")
 
 \* what the driver itself fed into a w-tilde inversion (tables built from the specification, dirty image of the donor)
 FedOk(r) ==
